@@ -149,17 +149,19 @@ func NewRootConfig(
 		koanf:  k,
 	}
 
-	configFileFromEnv := os.Getenv("MOCKERY_CONFIG")
-	if configFileFromEnv != "" {
-		configFile = pathlib.NewPath(configFileFromEnv)
-	}
-	if configFile == nil {
+	// CLI parameters take precedence over environment variables.
+	if flags != nil {
 		configFileFromFlags, err := flags.GetString("config")
 		if err != nil {
 			return nil, nil, fmt.Errorf("getting --config from flags: %w", err)
 		}
 		if configFileFromFlags != "" {
 			configFile = pathlib.NewPath(configFileFromFlags)
+		}
+	}
+	if configFile == nil {
+		if configFileFromEnv := os.Getenv("MOCKERY_CONFIG"); configFileFromEnv != "" {
+			configFile = pathlib.NewPath(configFileFromEnv)
 		}
 	}
 	if configFile == nil {
